@@ -159,15 +159,20 @@ def check_program(corpus, mod_ast, prog, sc, rng, V=3, features=None):
         lines = sc.script_lines(prog, dbA, dbB, ks)
         rec = replay(corpus, prog, sc, lines, dbA, dbB, q.kind)
         rec["query"] = q.name
-        out.cex = {"query": q.name, "kind": q.kind, "inputs": {k: [rust_repr(t) for t in v] for k, v in dbA.items()},
-                   "pushed": ({k: [rust_repr(t) for t in v] for k, v in dbB.items()} if dbB else None), "deadline_checks": ks}
-        out.replay = rec
+        cex = {"query": q.name, "kind": q.kind, "inputs": {k: [rust_repr(t) for t in v] for k, v in dbA.items()},
+               "pushed": ({k: [rust_repr(t) for t in v] for k, v in dbB.items()} if dbB else None), "deadline_checks": ks}
         if rec["problems"]:
+            out.cexes.append((cex, rec))
+            if out.cex is None:
+                out.cex, out.replay = cex, rec
             out.status = "violation"
-            out.detail = "; ".join(t for _, t in rec["problems"][:3])
-        else:
-            out.status = "inconclusive"
-            out.detail = "counterexample of %s did not reproduce natively (encoder / contract wrong?)" % q.name
+            out.detail = "; ".join(t for _, t in out.replay["problems"][:3])
+            continue   # keep deciding the remaining queries: a second, different violation must not hide behind this one
+        out.cex, out.replay = cex, rec
+        out.status = "inconclusive"
+        out.detail = "counterexample of %s did not reproduce natively (encoder / contract wrong?)" % q.name
+        return out
+    if out.status == "violation":
         return out
     # translator validation on V random concrete databases
     try:
@@ -176,7 +181,25 @@ def check_program(corpus, mod_ast, prog, sc, rng, V=3, features=None):
         out.status, out.detail = "inconclusive", "validation unsupported: " + str(e)
         return out
     if bad:
-        out.status, out.detail = "inconclusive", "translator validation failed: " + bad
+        # the encoding (which assumes the index/merge contract) and the real program disagree on a concrete
+        # database.  If the *real* program also disagrees with the reference model there, that database is a
+        # natively reproduced violation of the property (the contract itself is broken in /repo); otherwise the
+        # encoder is wrong and the result is inconclusive.
+        msg, job = bad
+        rec = None
+        if job is not None:
+            dbA, dbB, ks = job
+            lines = sc.script_lines(prog, dbA, dbB, ks)
+            rec = replay(corpus, prog, sc, lines, dbA, dbB, "mismatch")
+        if rec and rec["problems"]:
+            rec["query"] = "translator-validation database (encoding assumes the index contract; the real code broke it)"
+            out.cex = {"query": rec["query"], "kind": rec["problems"][0][0], "inputs": {k: [rust_repr(t) for t in v] for k, v in dbA.items()},
+                       "pushed": ({k: [rust_repr(t) for t in v] for k, v in dbB.items()} if dbB else None), "deadline_checks": ks}
+            out.replay = rec
+            out.status = "violation"
+            out.detail = "found while validating the encoding: " + "; ".join(t for _, t in rec["problems"][:3])
+        else:
+            out.status, out.detail = "inconclusive", "translator validation failed: " + msg
     out.stats["total_s"] = round(time.time() - t0, 2)
     return out
 
@@ -221,7 +244,7 @@ def validate(corpus, prog, sc, rng, V):
         if sc.kind == "timeout":
             sc.pin_deadlines(asg, ks)
         if o.strip() == "PANIC":
-            return ok, "native run panicked on a validation database %s" % dbA
+            return ok, ("native run panicked on a validation database %s" % dbA, (dbA, dbB, ks))
         dumps, rets = parse_dump(o)
         for (label, ob), dump in zip(sc.obs, dumps):
             model_rows = {}
@@ -245,7 +268,7 @@ def validate(corpus, prog, sc, rng, V):
             nat = native_rows(dump, prog)
             if model_rows != nat:
                 diff = {rn: (model_rows[rn], nat[rn]) for rn in nat if model_rows[rn] != nat[rn]}
-                return ok, "encoding and real program disagree at '%s' on inputs %s: (encoding, native) = %s" % (label, dbA, str(diff)[:600])
+                return ok, ("encoding and real program disagree at '%s' on inputs %s: (encoding, native) = %s" % (label, dbA, str(diff)[:600]), (dbA, dbB, ks))
         if sc.kind == "timeout":
             for i, alts in enumerate(sc.ex.rets):
                 mv = None
@@ -253,6 +276,6 @@ def validate(corpus, prog, sc, rng, V):
                     if eval_b(c, asg):
                         mv = v
                 if i < len(rets) and mv != rets[i]:
-                    return ok, "run_timeout #%d returned %s natively but %s in the encoding (k=%s)" % (i + 1, rets[i], mv, ks)
+                    return ok, ("run_timeout #%d returned %s natively but %s in the encoding (k=%s)" % (i + 1, rets[i], mv, ks), (dbA, dbB, ks))
         ok += 1
     return ok, None
